@@ -28,12 +28,8 @@ Proof. exact encode_injective. Qed.
 
 (* the control byte alone decides the class, as in the specification's table; the 61 other
    control bytes are rejected whatever follows *)
-Definition spec_class (c : N) : option N :=
-  if c <? 0x80 then Some 0 else if c <? 0xA0 then Some 1 else if c <? 0xC0 then Some 2
-  else if c =? 0xC0 then Some 3 else if c =? 0xC1 then Some 4 else if c =? 0xC2 then Some 5 else None.
-Definition class_of (f : frame) : N :=
-  match f with Data _ _ _ _ => 0 | Ack _ _ _ => 1 | Nak _ _ _ => 2 | Rst => 3 | Rstack _ _ => 4 | Error _ _ => 5 end.
-
+(* [spec_class] (the specification's table on the control byte) and [class_of] are defined in
+   proofs/AshCodec_proofs.v *)
 Theorem c03_classify : forall c rest f, c < 256 ->
   parse (c :: rest) = Some f -> spec_class c = Some (class_of f).
 Proof. exact classify. Qed.
